@@ -8,7 +8,7 @@ HOOKS = {
 ENGINES = [
     {"name": "SCHED", "path": "/verif/amc/shim/vsched + /verif/amc/explore + /verif/amc/instr", "serves_properties": ["C04"],
      "kind_free_text": "stateless model checking: source instrumenter (go build -overlay) turns every sync/atomic/go/channel operation into a schedule point of a cooperative scheduler running inside a testing/synctest bubble; DFS over choice lists with iterative deviation bounding, causal zero-cost continuation, conflict-based point reduction, replayable schedules"},
-    {"name": "SEQ", "path": "/verif/amc/kit", "serves_properties": ["C01", "C02", "C05"],
+    {"name": "SEQ", "path": "/verif/amc/kit", "serves_properties": ["C01", "C02", "C03", "C05", "C07"],
      "kind_free_text": "sequential explicit-state search: BFS over the states of real machines (successor = fresh instance + replayed shortest path + one operation), enumerated schema spaces, reference predicates"},
 ]
 NOTES = "All checks run the real code of /repo rebuilt from its working tree; exit 0 held / 1 unlisted violation / 2 harness error. known-findings.jsonl lists recorded genuine defects (printed as KNOWN-FINDING) and fixed ones (replayed as regressions)."
@@ -41,5 +41,19 @@ LEVELS = {
         "text": "Every transition of the enumerated After/Require schema spaces from every reachable state runs with logging handlers for every handler name (1 and 2 bindings), fault-free and once per veto position; the handler trace is checked for phase order, After/Require precedence, before/after visibility, veto stops everything, finals exactly once per changed state per binding.",
         "design_ref": "DESIGN.md section 5 C05",
         "note": "Trusted: handler names over single-letter states are parsed by the harness; machines run in synctest bubbles. Struct (reflection) handlers and StatePrefix bindings are covered by C20/C08 harnesses only lightly.",
+    },
+    "C03": {
+        "engine": "SEQ",
+        "technique": "explicit-state model checking with enumerated veto subsets and twin-run differential for Can*",
+        "text": "Every transition of the enumerated schemas from every reachable state is executed fault-free and once per veto subset; Canceled => nothing moved, Executed => the claim of the mutation kind holds on the transition's own after-time, Can* change nothing and agree with the twin machine's real mutation; plus deterministic early-return scenes in fake time.",
+        "design_ref": "DESIGN.md section 5 C03",
+        "note": "Trusted: recording tracer (cross-checked in C01/C14). Half-applied visibility is checked by C05's visibility oracle and the SCHED reader of C01.",
+    },
+    "C07": {
+        "engine": "SEQ",
+        "technique": "explicit-state model checking with enumerated veto assignments on auto transitions; oracle over the tracer sequence",
+        "text": "For every reachable state and mutation the tracer sequence must show an auto mutation exactly when due, calling exactly the eligible inactive Auto states, never chained, never after a no-op; inside the auto transition every called Auto state is judged on its own (relations / own handlers), for every enumerated veto assignment.",
+        "design_ref": "DESIGN.md section 5 C07",
+        "note": "Trusted: reference predicate expectedAuto() written from the statement. Generous reading of relation-based rejection (documented in evidence assumptions).",
     },
 }
